@@ -3,9 +3,10 @@
    coordinate bonds".  The edit is Proofs.RingsExt.prune (the atom leaves, its at most one neighbour forgets it).
      * rings_count survives rightly: the cyclomatic number is unchanged  (remove_atom_keeps_rings_count);
      * not_special_connectivity does NOT: the edited graph is never the old one (remove_atom_changes_connectivity), so
-       "the cache left by flush_cache(keep_sssr=True) is valid for the edited structure" is REFUTED for the faithful model of
-       remove_metals (which, unlike implicify / explicify_hydrogens after fix 55af6a9, does not drop the attribute) and holds under the
-       extra hypothesis that the attribute was not cached (_partial).
+       "the cache left by flush_cache(keep_sssr=True) ALONE is valid for the edited structure" is REFUTED (this was the defect of
+       remove_metals found in round 4 and repaired in /repo by fed0944; implicify / explicify_hydrogens: 55af6a9) and holds under the
+       extra hypothesis that the attribute is not in the cache (_partial) -- which is what the three methods now ensure by dropping it
+       right after the flush.
    Views that are not functions of the graph in the model (sssr, atoms_rings, atoms_rings_sizes: their value depends on CPython's set
    order, an oracle input of sssr_model) are the constant RVother here: their validity after such an edit is a search result
    (standardisation histories in harness/checks/C06.py), not part of these statements. *)
